@@ -109,6 +109,22 @@ func genC09(seed int64, tier string) *Scenario {
 	if classes {
 		use.WriteString("---@type Cls0\nlocal c0 = nil\nprint(c0.fa0)\n")
 	}
+	projectMode := r.Intn(4) == 0
+	if projectMode {
+		// luahelper.json project mode: the entry file pulls other files in through require, so the
+		// second analysis pass (its own worker pool) and the third pass both run
+		for k := 0; k < 3 && k < nfiles; k++ {
+			fmt.Fprintf(&use, "local r%d = require(\"f%02d\")\nprint(r%d)\n", k, r.Intn(nfiles), k)
+		}
+		entries := []string{"use.lua"}
+		if r.Intn(2) == 0 {
+			entries = append(entries, sc.Files[r.Intn(len(sc.Files))].Path)
+		}
+		cfg := map[string]interface{}{"BaseDir": "./", "ShowWarnFlag": 1, "ProjectFiles": entries}
+		b, _ := json.Marshal(cfg)
+		sc.Files = append(sc.Files, File{Path: "luahelper.json", Data: Bytes(b)})
+		sc.Knobs["project"] = true
+	}
 	useText := use.String()
 	sc.Files = append(sc.Files, File{Path: "use.lua", Data: Bytes(useText)})
 	sort.Slice(sc.Files, func(i, j int) bool { return sc.Files[i].Path < sc.Files[j].Path })
